@@ -2,6 +2,7 @@ SPECIFICATION Spec
 CONSTANTS
   Events = {0, 1, 2}
   AbortPoints = {1, 2, 5}
+  ThrowPoints = {1, 2}
   MaxLen = 2
   Configs = {"c"}
 INVARIANT CleanBeforeRun
